@@ -103,7 +103,7 @@ def run(rep, tier, seed):
                              "src": src, "out": out, "off": off, "len": ln, "orig": []})
                 n += 1
         # display round trip on random addresses: read src text, assign it to dst
-        nrand = 300 if tier == "quick" else 5000
+        nrand = 900 if tier == "quick" else 5000
         for i in range(nrand):
             fam = rnd.choice(["mac", "ipv4", "ipv6", "ipv6", "ipv4/vlan", "ipv6/vlan", "ipv4/opts"])
             fr = frame_for(fam, rnd)
